@@ -28,6 +28,11 @@ CHECKS = {
   note="Trusted: go/ssa; the resource table in engines/c16.go (acquire/release pairs and handle guards confirmed by reading); callbacks registered elsewhere are checked only where listed (onExpire).",
   tech="static analysis: path-sensitive finite-domain dataflow (property simulation) for must-release on all claiming paths + lock-hold (must-held) analysis for claim atomicity + call-graph reachability",
   ref="DESIGN.md §2 C16, §1.3 E5"),
+ "C08": dict(
+  text="Structural clauses of accounting reliability decided on the SSA of the accounting manager and RADIUS client: persist-before-stop ordering; every failed SendAccounting on every path reaches the retry queue with the same request (path-sensitive finite-domain dataflow); after a failed send nothing persisted is removed before the pending queue is written to disk (first-on-all-paths rule); queued requests are never rewritten; the recovery routine always reaches the pending reload; the retry processor drops a record only on success or exhausted budget; Start only after registration with duplicate ids refused; low-word/gigaword split and attribute-to-field table; like-named field provenance of every AcctRequest literal. These are necessary conditions; crash-point enumeration, retry timing and eventual delivery are not decided.",
+  note="Trusted: go/ssa; os.WriteFile durability; the attribute/field table in engines/c08.go. Two durability findings in the recovery routine are known findings (repair blocked by an existing test).",
+  tech="static analysis: must-precede / first-on-all-paths CFG rules, path-sensitive error-discipline dataflow, value-shape and field-provenance tables on go/ssa",
+  ref="DESIGN.md §2 C08"),
 }
 NA = {}
 def main():
